@@ -48,7 +48,7 @@ def run(chk: harness.Check):
         "space the builder will index (names, symbols, aliases and their declared SI expansions) and checks it is collision-free, that best "
         "lists name units of their own quantity and system, and that fraction entries name existing units; D4 compares the key paths used in "
         "units.toml with the string keys build.rs reads; D5-D7 pin the empty-best rejection, alias carry-over and remove→edit→add re-indexing order of the extend "
-        "machinery; D8: in finish the best lists and the fractions configuration are computed after apply_extend_groups, which follows SI expansion; D10: every join takes data and precedence from the same incoming layer and joins same-named fields; join_alias_vec / join_prefixes implement Before / After / Override as documented; D9: "
+        "machinery; D8: in finish the best lists and the fractions configuration are computed after apply_extend_groups, which follows SI expansion; D11: every iteration of the quantity-group loop of add_units_file examines the group's best list; D10: every join takes data and precedence from the same incoming layer and joins same-named fields; join_alias_vec / join_prefixes implement Before / After / Override as documented; D9: "
         "prefixed units are regenerated whole from the edited base unit (ratio = base.ratio * prefix.ratio()). Necessary conditions of 'consistent or rejected'; layer semantics are not decided.")
     chk.trusted = ["tables/panics.toml, narrow_arith.toml, progress.toml", "tomllib parse of units.toml", "synfacts extraction of build.rs string keys"]
     regions, entries = builder_regions(F)
@@ -64,6 +64,7 @@ def run(chk: harness.Check):
     d7_reindex_order(chk, F)
     d8_finish_order(chk, F)
     d10_precedence(chk, F)
+    d11_every_part(chk, F)
     import c09
     c09.d6_si_expansion(chk, F, "C16.D9-si-expansion")
     d3_shipped(chk)
@@ -226,6 +227,41 @@ def d8_finish_order(chk, F):
         chk.expect(b not in f.reach_from(a) and f.node_dominates(0, b), "C16.D8-finish-order", "finish|SI expansion first", f.where(b),
                    "units are SI-expanded after the extend groups were applied: extend entries cannot address or refresh the generated units",
                    sample=f"{f.where(b)}: SI expansion precedes apply_extend_groups")
+
+
+def d11_every_part(chk, F):
+    """A layer may bring any subset of {units, best} per quantity group: the `best` list of a group must be looked at in
+    EVERY iteration of the group loop of add_units_file (a group without `units` can still override the best list), and the
+    store into self.best_units is guarded by that look."""
+    from flow import resolve, resolve_place, show
+    fs = [g for g in F.find("ConverterBuilder::add_units_file") if not g.is_closure()]
+    if len(fs) != 1:
+        chk.fail("anchor-missing", "add_units_file", "", "anchor-missing: add_units_file not found")
+        return
+    f = fs[0]
+    stores = [i for i, j, st in f.iter_stmts() if st["k"] == "assign" and any(p == ".best_units" for p in st["place"]["p"])]
+    stores += [t.get("target", b) for b, t in f.calls() if any(p == ".best_units" for p in t["dest"]["p"])]
+    # `self.best_units[q] = ..` goes through IndexMut: the write is `*index_mut(&mut self.best_units, q) = ..`
+    for b, t in f.calls():
+        if (callee_key(t) or "").endswith("IndexMut<K>>::index_mut") or "index_mut" in (callee_key(t) or ""):
+            if ".best_units" in show(resolve(f, t["args"][0]), -50):
+                stores.append(b)
+    tests = []
+    for i, j, st in f.iter_stmts():
+        if st["k"] == "assign" and st["rv"]["k"] == "discr" and "BestUnits" in st["rv"].get("ty", "") and "Option" in st["rv"].get("ty", ""):
+            if show(resolve_place(f, st["rv"]["place"]), -50).endswith(".best") and any(f.node_dominates(i, s_) for s_ in stores):
+                tests.append(i)
+    heads = [b for b, t in f.calls() if (callee_key(t) or "").endswith(("Iterator>::next", "Iterator::next")) and ".quantity" in show(resolve(f, t["args"][0]), -50)]
+    if not stores or len(tests) != 1 or len(heads) != 1:
+        chk.fail("C16.D11-every-part", "add_units_file|best", f"{f.file}:{f.line}",
+                 f"anchor-missing: expected one guarded store of the group's best list inside the group loop (stores {len(stores)}, tests {len(tests)}, loop heads {len(heads)})")
+        return
+    h, B = heads[0], tests[0]
+    back = any(h in f.reach_from(s_, removed_nodes={B}) for s_ in f.succ[h] if s_ != B)
+    chk.expect(not back, "C16.D11-every-part", "add_units_file|best looked at in every group", f.where(B),
+               "an iteration of the quantity-group loop can finish without looking at the group's `best` list (e.g. `continue` for a group without units): "
+               "a later layer's best-unit override is dropped and a consistent file is rejected with EmptyBest",
+               sample=f"{f.where(B)}: every iteration of the group loop tests group.best")
 
 
 def _last_field(e):
